@@ -184,7 +184,7 @@ fn random_strategy() -> BoxedStrategy<Case> {
         max_specs: 4,
         multipart_bias: true,
     };
-    (reqgen::case_strategy(reqgen::small_len_strategy(), p), any::<bool>())
+    (reqgen::stable_case_strategy(reqgen::small_len_strategy(), p), any::<bool>())
         .prop_map(|((ent, mut req), head)| {
             if head {
                 req.method = "HEAD".into();
